@@ -29,6 +29,24 @@ type Opts struct {
 	FailSet    bool
 	Mapper     *hx.Mapper // default: tables of the history
 	KeepTx     bool       // keep the delivered *Transaction pointers
+	TCP        bool       // serve the master over a real loopback TCP socket (driver's standard dialer)
+}
+
+type tcpServer struct{ *net.TCPConn }
+
+func (t tcpServer) Reset() {
+	t.TCPConn.SetLinger(0)
+	t.TCPConn.Close()
+}
+
+// TCPAvailable reports whether a loopback listener can be opened here.
+func TCPAvailable() bool {
+	l, err := net.Listen("tcp", "127.0.0.1:0")
+	if err != nil {
+		return false
+	}
+	l.Close()
+	return true
 }
 
 // Delivery is one handler call.
@@ -112,7 +130,9 @@ func Run(h *ref.History, o Opts) *Outcome {
 			s.mu.Lock()
 			sv := s.servers[ci]
 			s.mu.Unlock()
-			sv.WaitPeerIdle()
+			if sv != nil {
+				sv.WaitPeerIdle()
+			}
 		}
 	}
 	sessions.Store(id, s)
@@ -123,7 +143,29 @@ func Run(h *ref.History, o Opts) *Outcome {
 		mapper = hx.NewMapper(TablesOf(h)...)
 	}
 	out.Mapper = mapper
-	st, err := gobinlog.NewStreamer("u:p@nmem("+id+")/d", o.ServerID, mapper)
+	dsn := "u:p@nmem(" + id + ")/d"
+	if o.TCP {
+		lis, lerr := net.Listen("tcp", "127.0.0.1:0")
+		if lerr != nil {
+			chk.Fatalf("loopback listener: %v", lerr)
+		}
+		defer lis.Close()
+		dsn = "u:p@tcp(" + lis.Addr().String() + ")/d"
+		go func() {
+			for {
+				c, err := lis.Accept()
+				if err != nil {
+					return
+				}
+				s.mu.Lock()
+				idx := s.master.NewConnLog()
+				s.servers = append(s.servers, nil)
+				s.mu.Unlock()
+				go s.master.Serve(idx, tcpServer{c.(*net.TCPConn)})
+			}
+		}()
+	}
+	st, err := gobinlog.NewStreamer(dsn, o.ServerID, mapper)
 	if err != nil {
 		chk.Fatalf("NewStreamer: %v", err)
 	}
